@@ -68,7 +68,11 @@ def gen_ctor(tier, rnd):
     # malformed literals
     for v in (["0/1", None, "1/1"], [None], [], ["0/1"], ["1/1", "1/1"], ["0/1", "0/1", "1/1", "1/1", "2/1"],
               ["0/1", "1/1", "2/1", "3/1"], ["0/1", "0/1", "0/1", "1/1", "1/1"], ["0/1", "0/1", "1/1", "1/1", "1/1"],
-              ["0/1", "str", "1/1"], ["0/1", "0/1", "1/2", "1/2", "1/2", "1/1", "1/1"]):
+              ["0/1", "str", "1/1"], ["0/1", "0/1", "1/2", "1/2", "1/2", "1/1", "1/1"],
+              # a float NaN is not a number either (it compares False both ways): interior, repeated, at either end
+              ["0/1", "0/1", "nan", "1/1", "1/1"], ["0/1", "nan", "1/1"], ["nan", "0/1", "1/1"], ["0/1", "1/1", "nan"],
+              ["0/1", "0/1", "0/1", "nan", "nan", "1/1", "1/1", "1/1"], ["0/1", "0/1", "1/2", "nan", "1/1", "1/1"],
+              ["nan", "nan"], ["0/1", "0/1", "npnan", "1/1", "1/1"]):
         for d in (None, 0, 1, 2):
             cases.append({"k": "ctor", "v": v, "deg": d})
     return cases
@@ -251,12 +255,21 @@ def impl(case):
     from compmec.nurbs import KnotVector
     if case["k"] == "ctor":
         v = case["v"]
-        raw = [None if x is None else ("abc" if x == "str" else __import__("implib").num(x)) for x in v]
+        special = {"str": "abc", "nan": float("nan"), "npnan": __import__("numpy").nan}
+        raw = [None if x is None else (special[x] if x in special else __import__("implib").num(x)) for x in v]
+
+        made = []
 
         def build():
             kv = KnotVector(raw) if case["deg"] is None else KnotVector(raw, case["deg"])
+            made.append(kv)
             return {"U": __import__("implib").out_nums(list(kv)), "p": int(kv.degree)}
-        return {"r": capture(build)}
+        r = capture(build)
+        if "err" in r and made:
+            # the constructor ACCEPTED the data and only the conversion of its content failed (a NaN inside):
+            # report an accepted, empty vector - never the conversion error as if the library had refused
+            r = {"ok": {"U": [], "p": 0}}
+        return {"r": r}
     kv = KnotVector(nums(case["U"]))
     rnd = random.Random(case["seed"])
     steps = []
@@ -309,7 +322,7 @@ def _cobs(ob):
 
 def emit(case, out):
     if case["k"] == "ctor":
-        v = clist(case["v"], lambda x: "None" if (x is None or x == "str") else f"(Some {cq(x)})")
+        v = clist(case["v"], lambda x: "None" if (x is None or x in ("str", "nan", "npnan")) else f"(Some {cq(x)})")
         return ctuple(v, copt(case["deg"], cnat), cres(out["r"], _cview))
     steps = clist(out["steps"], lambda s: ctuple(_cop(s["op"]), cres(s["r"], lambda vs: clist(vs, _cview)),
                                                  _cobs(s["obs"])))
